@@ -1,6 +1,6 @@
 ----------------------------- MODULE FindingsC14 -----------------------------
 EXTENDS Sequences, FiniteSets
-(* F-C14-2 (open): both response wrappers of Validator.Middleware take the FIRST WriteHeader call for the        *)
+(* F-C14-2 (fixed by 14f1d91; the class stays as a name for a regression): both response wrappers of Validator.Middleware took the FIRST WriteHeader call for the        *)
 (* response's status, also when it carries an informational status (1xx other than 101, e.g. 103 Early Hints),   *)
 (* which net/http sends at once and which leaves the header open for the real status.  The status the handler   *)
 (* writes afterwards is dropped: the warn wrapper re-sends the 1xx, the strict wrapper flushes WriteHeader(1xx)  *)
